@@ -206,7 +206,11 @@ def payload_docs(r, n):
                 "~~%s~~ ==%s== ^^%s^^ ^%s^ ~%s~\n" % (pay, pay, pay, "x9", "x9"), "https://x9.example/%s\n" % pay,
             ])
         else:
-            opt = r.choice(["class", "figclass", "figwidth", "width", "height", "alt", "align", "target", "max-level", "min-level", "encoding"])
+            if r.random() < 0.35:
+                # directives of every type with options of every name (also ones the directive does not know) carrying payloads
+                yield gen_docs.directive_doc(r, r.choice(["fenced", "rst"]), [pay, "left" + pay, "100" + pay, url, pay + " c1", "tip" + pay, "1" + pay])
+                continue
+            opt = r.choice(["class", "figclass", "figwidth", "width", "height", "alt", "align", "target", "max-level", "min-level", "encoding", "name", "title", "id", "style", "type"])
             # a value that begins like a valid one (validated options are checked by prefix-anchored patterns)
             optval = r.choice(["", "", "left", "center", "right", "Left", "100", "50%", "10px", "1", "3", "utf-8"]) + pay
             if r.random() < 0.5:
